@@ -280,6 +280,20 @@ def supervise(pid, tier, seed, argv):
     env = dict(os.environ, VERIF_CHILD="1", VERIF_PROGRESS_FILE=str(prog))
     cmd = [sys.executable, str(common.VERIF / "check"), pid, "--tier", tier]
     p = subprocess.Popen(cmd, env=env, start_new_session=True)
+    import signal as _sig
+
+    def _pass_on(signum, _frm):
+        # the caller ends this check: end the child (and whatever it started) with it
+        try:
+            os.killpg(p.pid, _sig.SIGKILL)
+        except Exception:  # noqa: BLE001
+            pass
+        os._exit(128 + signum)
+    for _s in (_sig.SIGTERM, _sig.SIGINT, _sig.SIGHUP):
+        try:
+            _sig.signal(_s, _pass_on)
+        except Exception:  # noqa: BLE001
+            pass
     try:
         rc = p.wait(timeout=grace)
         return rc
